@@ -7,7 +7,7 @@ use crate::{
     error::VaultError,
     state::{
         ALL_TIME_COLLECTED_PROTOCOL_FEES, COLLECTED_PROTOCOL_FEES, CONFIG, LOAN_COUNTER,
-        SETTLED_LOAN_FEES,
+        SETTLED_FEES_AT_LOAN_START, SETTLED_LOAN_FEES,
     },
 };
 
@@ -38,10 +38,15 @@ pub fn after_trade(
     };
 
     // fees of loans that completed inside this one were paid into the balance: they cannot pay for this loan too
+    let loan_depth = LOAN_COUNTER.may_load(deps.storage)?.unwrap_or_default();
     let settled_fees = SETTLED_LOAN_FEES
         .may_load(deps.storage)?
         .unwrap_or_default();
-    let new_balance = new_balance.checked_sub(settled_fees)?;
+    let settled_inside_this_loan = settled_fees.checked_sub(
+        SETTLED_FEES_AT_LOAN_START
+            .may_load(deps.storage, loan_depth)?
+            .unwrap_or_default(),
+    )?;
 
     // check that balance is greater than expected
     let protocol_fee =
@@ -57,7 +62,8 @@ pub fn after_trade(
     let required_amount = old_balance
         .checked_add(protocol_fee)?
         .checked_add(flash_loan_fee)?
-        .checked_add(burn_fee)?;
+        .checked_add(burn_fee)?
+        .checked_add(settled_inside_this_loan)?;
 
     if required_amount > new_balance {
         return Err(VaultError::NegativeProfit {
@@ -67,11 +73,7 @@ pub fn after_trade(
         });
     }
 
-    let profit = new_balance
-        .checked_sub(old_balance)?
-        .checked_sub(protocol_fee)?
-        .checked_sub(flash_loan_fee)?
-        .checked_sub(burn_fee)?;
+    let profit = new_balance.checked_sub(required_amount)?;
 
     // store fees
     store_fee(deps.storage, COLLECTED_PROTOCOL_FEES, protocol_fee)?;
@@ -80,6 +82,8 @@ pub fn after_trade(
     // deduct loan counter
     let open_loans =
         LOAN_COUNTER.update::<_, StdError>(deps.storage, |c| Ok(c.saturating_sub(1)))?;
+
+    SETTLED_FEES_AT_LOAN_START.remove(deps.storage, loan_depth);
 
     // while an enclosing loan is open, remember the fees this loan leaves in the balance (the burn fee is burned)
     if open_loans == 0 {
